@@ -48,6 +48,10 @@ class StubLearner:
         self.freed = sorted(self.pending_points) + self.freed
         self.pending_points = set()
 
+    def tell_many(self, xs, ys):
+        for x, y in zip(xs, ys):
+            self.tell(x, y)
+
     @property
     def npoints(self):
         return len(self.data)
@@ -67,15 +71,23 @@ def mk_learner(kind, param):
         return lambda: adaptive.SequenceLearner(lambda x: x, list(range(100, 100 + n)))
     if kind == "l1d":
         return lambda: adaptive.Learner1D(lambda x: x, bounds=(-1.0, 1.0))
+    if kind == "integ":
+        return lambda: adaptive.IntegratorLearner(lambda x: x, bounds=(-1.0, 1.0), tol=1e-8)
+    if kind == "lnd":
+        return lambda: adaptive.LearnerND(lambda p: p[0], bounds=[(-1.0, 1.0), (-1.0, 1.0)])
     raise ValueError(kind)
 
 
 def gen_cfg(rng, faults, thorough=False):
-    kind = rng.choice(["stub", "stub", "seq", "l1d"])
+    kind = rng.choice(["stub", "stub", "seq", "l1d", "l1d", "integ", "lnd"])
     ntasks = rng.choice([1, 1, 2, 2, 3, 4, 5, 8] if thorough else [1, 2, 2, 3, 4])
     target = rng.randint(0, 12)
     maxiter = rng.randint(1, 14)
-    param = {"stub": rng.choice([0, 0, 2, 3]), "seq": rng.randint(0, 10), "l1d": 0}[kind]
+    param = {"stub": rng.choice([0, 0, 2, 3]), "seq": rng.randint(0, 10), "l1d": 0, "integ": 0, "lnd": 0}[kind]
+    if kind == "integ":
+        ntasks = rng.choice([ntasks, 8, 12, 20])             # many values in flight: intervals are split before their values arrive
+        target = rng.choice([target, rng.randint(20, 70), rng.randint(60, 160)])   # far enough for intervals to be split while values are in flight
+        maxiter = max(maxiter, rng.randint(10, 40))
     runner = rng.choice(["blocking", "async", "async-coro"])
     cfg = {
         "kind": kind, "param": param, "ntasks": ntasks, "target": target, "maxiter": maxiter,
@@ -208,7 +220,7 @@ def oracle_c05(res):
         if c[0] == "submit" and c[1] not in cancelled and c[1] not in consumed:
             return ("exit_clean", f"future {c[1]} neither consumed nor cancelled")
     l = res["learner"]
-    if hasattr(l, "pending_points") and len(l.pending_points) != 0:
+    if hasattr(l, "pending_points") and len(l.pending_points) != 0 and cfg["kind"] != "integ":  # the integrator cannot discard
         return ("exit_clean", f"learner still has pending points {sorted(l.pending_points)[:5]} at exit")
     if cfg.get("_goal_mismatch"):
         return ("goal_semantics", cfg["_goal_mismatch"][0])
@@ -330,7 +342,10 @@ def oracle_c19(res):
     # replay
     orig = res["learner"]
     fresh = orig.new()
-    adaptive.runner.replay_log(fresh, r.log)
+    try:
+        adaptive.runner.replay_log(fresh, r.log)
+    except Exception as e:
+        return ("replay_raises", f"replaying the log on a fresh learner raised {e!r}")
     if dict(fresh.data) != dict(orig.data):
         return ("replay_data", f"replayed data differs: {len(fresh.data)} vs {len(orig.data)} points")
     if abs(fresh.loss() - orig.loss()) > 1e-12 * max(1, abs(orig.loss())):
